@@ -10,4 +10,8 @@ unset GOTOOLCHAIN GOSUMDB 2>/dev/null
 ID="$1"; TIER="${2:-quick}"
 export VERIF_TIER="$TIER"
 ./build.sh "$ID" >&2 || { echo "HARNESS-ERROR: build failed" >&2; exit 2; }
+case "$ID" in
+  C05) export GOMAXPROCS=1; exec bin/vsched run "$ID" "$TIER" ;;
+  C18) export GOMAXPROCS=1 GORACE="halt_on_error=1 exitcode=66"; exec bin/vsched-race run "$ID" "$TIER" ;;
+esac
 exec bin/vcheck run "$ID" "$TIER"
